@@ -246,7 +246,7 @@ func (a *c25Alphabet) focused(c string) []string {
 
 type c25Stats struct {
 	evals, nontrivial, nonrootExecAllowed, nonrootForbidden, nonrootHelp, nonrootParse, rootExec, rootHelp, rootParse int64
-	refChecked                                                                                                      int64
+	refChecked                                                                                                        int64
 }
 
 type c25Checker struct {
@@ -423,11 +423,14 @@ func TestVerifC25(t *testing.T) {
 	}
 	var blocks []c25Block
 	blocks = append(blocks, c25Block{name: "A1-full-alphabet", firsts: a.full, rest: a.full, minLen: 1, maxLen: LA1, refAll: true})
+	// shortest vectors first (a time cap then cuts off the longest ones)
+	for l := LA1 + 1; l <= LB; l++ {
+		for _, c := range a.names {
+			blocks = append(blocks, cmdFirst(c, l, l, r.Thorough()))
+		}
+	}
 	if LA2 > LA1 {
 		blocks = append(blocks, c25Block{name: "A2-names-and-global-tokens", firsts: base, rest: base, minLen: LA1 + 1, maxLen: LA2, refAll: true})
-	}
-	for _, c := range a.names {
-		blocks = append(blocks, cmdFirst(c, LA1+1, LB, r.Thorough()))
 	}
 	if LBany > LA1 {
 		for ci, c := range a.names {
